@@ -24,11 +24,18 @@ func (c *compAdapter) OutParamPort(n string) *sp.OutParamPort { return c.outp(n)
 // tagValueFor: the value node n (a MapToTags) attaches to the file at path.
 func tagValueFor(n *Node, path string) string {
 	if n.TagGroups > 0 {
-		h := 0
-		for _, c := range baseName(path) {
-			h = (h*31 + int(c)) % 1000003
+		// (FNV-1a with a final mix: neighbouring names must spread over the groups)
+		h := uint32(2166136261)
+		for _, c := range []byte(baseName(path)) {
+			h = (h ^ uint32(c)) * 16777619
 		}
-		return fmt.Sprintf("g%d", h%n.TagGroups)
+		h ^= h >> 15
+		h *= 2246822519
+		h ^= h >> 13
+		if n.TagSkip > 0 && (h>>8)%uint32(n.TagSkip) == 0 {
+			return "" // this file gets no tag at all (the map function returns an empty map)
+		}
+		return fmt.Sprintf("g%d", h%uint32(n.TagGroups))
 	}
 	return TagValue(path)
 }
@@ -82,7 +89,11 @@ func buildComponent(wf *sp.Workflow, w *WF, n *Node, rt *Runtime) outPorter {
 		key := n.TagKey
 		nn := *n
 		p := components.NewMapToTags(wf, n.Name, func(ip *sp.FileIP) map[string]string {
-			return map[string]string{key: tagValueFor(&nn, ip.Path())}
+			v := tagValueFor(&nn, ip.Path())
+			if v == "" {
+				return map[string]string{}
+			}
+			return map[string]string{key: v}
 		})
 		return &compAdapter{out: func(string) *sp.OutPort { return p.Out() }, in: func(string) *sp.InPort { return p.In() }}
 	case KStreamToSub:
